@@ -4875,7 +4875,7 @@ mod_webdav_put_range (request_st * const r, const buffer * const h,
     chunkqueue * const cq = &r->reqbody_queue;
     chunk *c = cq->first;
     off_t cqlen = chunkqueue_length(cq);
-    if (c->type == FILE_CHUNK && NULL == c->next && c->file.fd >= 0) {
+    if (c && c->type == FILE_CHUNK && NULL == c->next && c->file.fd >= 0) {
         loff_t zoff = 0;
         loff_t ooff = offset;
         ssize_t wr;
